@@ -203,7 +203,7 @@ def eval_validate(ann, line, created="Silent"):
     return {"req": None, "res": res, "failures": fails, "nontrivial": bool(res["Silent"].get("errors"))}
 
 
-def eval_write(ann, line, channel="handle", header_lines=None):
+def eval_write(ann, line, channel="handle", header_lines=None, sorting=False):
     """A writer opened through one of impl.WRITER_CHANNELS (from_fd on a caller handle, the constructor itself, from_path
     plain / .gz) on the default header of the layout - or on the header parsed (Silent) from `header_lines`, valid or
     not: the writer validates it with its stringency - and offered the record parsed (Silent) from the line."""
@@ -219,25 +219,35 @@ def eval_write(ann, line, channel="handle", header_lines=None):
         herrs = []
         with tempfile.TemporaryDirectory() as tmp, impl.LogCapture() as lc:
             try:
-                if header_lines is None:
+                if header_lines is None and sorting:
+                    from maflib.sort_order import Coordinate
+                    h = MafHeader.from_defaults(version=sch.version(), annotation=ann if ann != sch.version() else None, sort_order=Coordinate())
+                elif header_lines is None:
                     h = MafHeader.from_defaults(version=sch.version(), annotation=ann if ann != sch.version() else None)
                 else:
                     with impl.LogCapture():
                         h = MafHeader.from_lines(list(header_lines), validation_stringency=VS.Silent)
                     h.validation_errors = []
-                w, text, _path = impl.open_writer(channel, h, mode, tmp)
+                stage = "open"
+                w, text, _path = impl.open_writer(channel, h, mode, tmp, assume_sorted=not sorting)
                 herrs = impl.errs_json(h.validation_errors)
+                stage = "write"
                 w += rec
+                stage = "close"
                 w.close()
                 wres[mname] = {"errors": herrs + impl.errs_json(rec.validation_errors), "value": text()}
             except Exception as e:  # noqa
-                wres[mname] = {"exc": exc_name(e), "value": None}
+                wres[mname] = {"exc": exc_name(e), "value": None, "stage": stage}
         wres[mname]["logs"] = lc.parsed()
     fails = []
     where = {"entry": "write", "scheme": ann, "line": line}
     if channel != "handle" or header_lines is not None:
         where.update(channel=channel, header_lines=header_lines)
-    check_entry(fails, "writing" + ("" if channel == "handle" else " (channel '%s')" % channel), where, wres,
+    if sorting:
+        # a sorting writer (assume_sorted=False under a header that declares the Coordinate order): records are queued at
+        # write() and emitted by close()
+        where.update(sorting=True, stages={m: r.get("stage") for m, r in wres.items() if "exc" in r})
+    check_entry(fails, "writing" + (" (sorting writer)" if sorting else "") + ("" if channel == "handle" else " (channel '%s')" % channel), where, wres,
                 lambda r: r.get("errors") if "exc" not in r or not r["exc"].startswith("MafFormat") else [],
                 lambda r: r.get("value") if "exc" not in r else None)
     return {"req": None, "res": wres, "failures": fails, "nontrivial": bool(wres["Silent"].get("errors"))}
@@ -397,6 +407,11 @@ def validation_and_writer(ctx, out, rng):
             out.failures += eval_validate(ann, line, created=rng.choice(["Silent", "Lenient"]))["failures"]
             out.evaluations += 3
             out.failures += eval_write(ann, line)["failures"]
+            if rng.random() < 0.3:
+                out.evaluations += 3
+                e = eval_write(ann, line, rng.choice(["handle", "ctor"]), None, sorting=True)
+                out.failures += e["failures"]
+                out.distribution["sorting writer"] += 1
 
 
 def search(ctx):
@@ -480,10 +495,11 @@ def replay_case(ctx, failure):
             channel = f.get("channel", "handle")
             if channel not in impl.WRITER_CHANNELS:
                 return None
-            e = eval_write(f["scheme"], f["line"], channel, f.get("header_lines"))
-            what = "%s(%s, stringency) += record" % (
+            e = eval_write(f["scheme"], f["line"], channel, f.get("header_lines"), sorting=bool(f.get("sorting")))
+            what = "%s(%s, stringency%s) += record; close()" % (
                 {"handle": "MafWriter.from_fd", "ctor": "MafWriter", "plain": "MafWriter.from_path(plain path)", "gz": "MafWriter.from_path(.gz path)"}[channel],
-                "default %s header" % f["scheme"] if f.get("header_lines") is None else "header parsed (Silent) from %s" % _short(f["header_lines"], 150))
+                "default %s header%s" % (f["scheme"], " declaring sort.order Coordinate" if f.get("sorting") else "") if f.get("header_lines") is None else "header parsed (Silent) from %s" % _short(f["header_lines"], 150),
+                ", assume_sorted=False" if f.get("sorting") else "")
         what += " on the record parsed (Silent) from: %s" % _short(f["line"], 200)
     else:
         return None
